@@ -24,6 +24,7 @@ import (
 	"github.com/cosmos/cosmos-sdk/codec"
 	codectypes "github.com/cosmos/cosmos-sdk/codec/types"
 	cryptocodec "github.com/cosmos/cosmos-sdk/crypto/codec"
+	"github.com/cosmos/cosmos-sdk/crypto/keys/ed25519"
 	sdk "github.com/cosmos/cosmos-sdk/types"
 
 	tmproto "github.com/cometbft/cometbft/proto/tendermint/types"
@@ -173,3 +174,8 @@ func Sprintf(format string, a ...interface{}) string { return fmt.Sprintf(format
 // Show / ShowBool attach a named value to violation reports (debug aid).
 func Show(name string, v int64)    { Infos = append(Infos, fmt.Sprintf("%s = %d", name, v)) }
 func ShowBool(name string, v bool) { Infos = append(Infos, fmt.Sprintf("%s = %v", name, v)) }
+
+// PubKeyBytes is the ed25519 public key of identity i (deterministic).
+func PubKeyBytes(i int) []byte {
+	return ed25519.GenPrivKeyFromSecret([]byte{byte(i)}).PubKey().Bytes()
+}
